@@ -27,6 +27,7 @@ RULE = (
     'e stripes, 3-4 workers, long updates); a third of the parallel runs with statement-boundary delays on a 300x dilated lock clock; t'
     'he worker receiving one input SIGKILLed.'
     ' Round 8: a quarter of the API runs use the LXY naming scheme; any left-over lock-like file counts.'
+    ' Round 9: serial API runs with one transient ENOSPC inside a later Image.save (reported, or judged like any other run).'
 )
 ASSUMPTIONS = ["overlapping inputs agree by construction", "study tiling itself is decided by C08"]
 FIELDS = ["TileLevels", "CenterX", "CenterY", "BaseDegreesPerTile", "Rotation", "OffsetX", "OffsetY", "Projection", "BottomsUp", "WidthFactor", "FileType", "Url"]
@@ -262,7 +263,23 @@ def run_case(spec, workdir):
     else:
         pasted = fitsgen.paste((H, W), pieces)
     out1 = os.path.join(workdir, "mt1")
-    o1, i1, b1, recs1 = run_multi_tan(spec, paths, out1, spec["par"], spec["via"], os.path.join(workdir, "log1"), spec["profile"])
+    fp = None
+    if spec["par"] == 1 and spec["via"] == "api" and spec["seed"] % 3 != 0 and len(rects) >= 2:
+        # a transient write failure (disk full for a moment) on a LATER save of some tile during the serial run: the run reports
+        # it - or, if it carries on, the tiles are judged like any others
+        import errno
+
+        fp = sched.failpoint("image.py", "save", OSError(errno.ENOSPC, "No space left on device (injected)"), skip=R.randrange(2, 14), count=1)
+    try:
+        o1, i1, b1, recs1 = run_multi_tan(spec, paths, out1, spec["par"], spec["via"], os.path.join(workdir, "log1"), spec["profile"])
+    except OSError as e:
+        if fp is None or not fp["fired"]:
+            raise
+        sched.clear_failpoints()
+        evlog.close_log()
+        return dict(counters=dict(mosaics=1, write_faults_injected=1, write_faults_reported=1), nontrivial=True, sample=dict(spec=spec, reported=repr(e)[:100]))
+    finally:
+        sched.clear_failpoints()
     if o1 == "watchdog":
         return dict(status="inconclusive", detail="watchdog")
     if any(r["k"] == "worker_killed" for r in recs1):
